@@ -1,45 +1,83 @@
 import FeatherModel.Base.Driver
 import FeatherModel.Model.Tiny
 
+/-!
+Driver of C03 (Tiny v2). Requests:
+* `tiny-write <M>`                 -> `ok <text>` | `ok panic` (a name that is not UTF-8; `write_vec` has no `Err` outcome)
+* `tiny-read <n> <text>`           -> `ok <M>` | `err e`
+* `tiny-rt <M>`                    -> `read (write M)`: `ok <M'>` | `err e` | `ok panic`
+* `oracle-rt <M>`                  -> theorem `read_write` (domain `writable`)
+* `oracle-perm <M> <M'>`           -> theorem `write_perm_dec` (domain `wf`, `wf`, `contentEqB`)
+* `oracle-fixed-point <M>`         -> theorem `write_fixed_point` (domain `writableE`)
+* `oracle-read-wf <n> <text>`      -> theorem `read_wf` (domain: `read` succeeds)
+* `oracle-read-counts <n> <text>`  -> theorem `read_counts` (domain: `read` succeeds)
+* `oracle-dup <n> <text> <m> <i> <j>` -> theorem `read_dup` (domain `dupAt`)
+-/
+
 open Driver Sexp Codec Tiny
 
 def verdict (tagName : String) : Ans := .ok (list [tag "fail", tag tagName])
+def pass : Ans := .ok (tag "pass")
+def outOfDomain : Ans := .ok (tag "out-of-domain")
+
+def kindTag : LineKind → String
+  | .cls => "classes" | .fld => "fields" | .mth => "methods" | .par => "params" | .doc => "docs" | .skip => "skip"
 
 def handleC03 (op : String) (args : List Sexp) : Option Ans :=
   match op, args with
   | "tiny-write", [m] => do
     let m ← mappingsFrom m
-    pure (match write? m with | some t => .ok (ofJStr t) | none => .err "e")
+    pure (match write? m with | some t => .ok (ofJStr t) | none => .ok (tag "panic"))
   | "tiny-read", [n, t] => do
     let n ← toNat? n; let t ← toJStr? t
     pure (match read n t with | some m => .ok (mappingsTo m) | none => .err "e")
   | "tiny-rt", [m] => do
     let m ← mappingsFrom m
     pure (match write? m with
-      | none => .err "e"
+      | none => .ok (tag "panic")
       | some t => match read m.ns.length t with | some r => .ok (mappingsTo r) | none => .err "e")
   | "oracle-rt", [m] => do
     let m ← mappingsFrom m
-    pure (if !writable m.ns.length m then .ok (tag "out-of-domain") else
+    pure (if !writable m.ns.length m then outOfDomain else
       match write? m with
-      | none => verdict "write_err"
+      | none => verdict "write_panic"
       | some t =>
         match read m.ns.length t with
         | none => verdict "read_err"
-        | some r => if r == canon m then .ok (tag "pass") else verdict "differs")
+        | some r => if r == canon m then pass else verdict "differs")
   | "oracle-perm", [a, b] => do
     let a ← mappingsFrom a; let b ← mappingsFrom b
-    pure (if !(wf a && wf b && contentEqB a b) then .ok (tag "out-of-domain") else
-      if write? a == write? b then .ok (tag "pass") else verdict "differs")
+    pure (if !(wf a && wf b && contentEqB a b) then outOfDomain else
+      if write? a == write? b then pass else verdict "differs")
   | "oracle-fixed-point", [m] => do
     let m ← mappingsFrom m
-    pure (if !writable m.ns.length m then .ok (tag "out-of-domain") else
+    pure (if !writableE m.ns.length m then outOfDomain else
       match write? m with
-      | none => verdict "write_err"
+      | none => verdict "write_panic"
       | some t =>
         match read m.ns.length t with
         | none => verdict "read_err"
-        | some r => if write? r == some t then .ok (tag "pass") else verdict "differs")
+        | some r => if write? r == some t then pass else verdict "differs")
+  | "oracle-read-wf", [n, t] => do
+    let n ← toNat? n; let t ← toJStr? t
+    pure (match read n t with
+      | none => outOfDomain
+      | some m => if wf m then pass else verdict "not_wf")
+  | "oracle-read-counts", [n, t] => do
+    let n ← toNat? n; let t ← toJStr? t
+    pure (match read n t with
+      | none => outOfDomain
+      | some m =>
+        let kinds := lineKinds .field (textLines t).tail
+        match [LineKind.cls, .fld, .mth, .par, .doc].find? (fun κ => countOf κ m.classes != kinds.count κ) with
+        | none => pass
+        | some κ => verdict (kindTag κ))
+  | "oracle-dup", [n, t, m, i, j] => do
+    let n ← toNat? n; let t ← toJStr? t; let m ← toNat? m; let i ← toNat? i; let j ← toNat? j
+    pure (if !dupAt (textLines t).tail m i j then outOfDomain else
+      match read n t with
+      | none => pass
+      | some _ => verdict "accepted")
   | _, _ => none
 
 def main : IO Unit := Driver.run handleC03
